@@ -485,3 +485,11 @@ U(id="C02.e2.exec_with_frame_span.height", props=["C02", "C11"], kind="fn", file
       "r.is_ok() ==> final(self).rt.stack@.len() as int - old(self).rt.stack@.len() as int == frame.sig.outputs as int - frame.sig.args as int",
   ],
   desc="exec_with_frame_span: the call frame is always popped again, and Ok is returned only if the stack height changed by exactly outputs - args of the frame's signature (release-build behaviour; the debug-build panic twin is dropped by R4)")
+
+rt_arm("offsub", "run_mod", r"&ImplPrimitive::OffSub\(n\)", ["C07", "C02"], [WF1],
+       ["r.is_ok() ==> ops@.len() == 1",
+        "r.is_ok() ==> ({ " + let() + " let d = max(a, n as int); let o = f.sig.outputs as int; s.len() >= d && final(env).rt.stack@.len() == s.len() - a + o + n })",
+        "r.is_ok() && ops@[0].sig.args >= n ==> ({ " + let() + " let o = f.sig.outputs as int; final(env).rt.stack@ =~= below(s, a) + top(s, n as int) + node_out(f.node, top(s, a)) })"],
+       hints=["let s = old(env).rt.stack@; let a = ops@[0].sig.args as int;",
+              "if a >= n { assert(below(s, 0) =~= s); assert(top(s, 0) =~= Seq::<Value>::empty()); }"],
+       sig=RTSIGN, desc="off_n F : copies of the top n values are kept beneath F's results (content shown for n <= a; height for all n)")
